@@ -5,38 +5,7 @@ import os
 VERIF = os.path.dirname(os.path.dirname(os.path.abspath(__file__)))
 
 # property id -> (claimed?, technique, level text, level note, design ref)
-CHECKS = {
-    "C06": dict(
-        technique="Coq proof: invariant by induction over operation sequences of the Coll model "
-                  "+ op-sequence correspondence against the real collections",
-        text="Theorems in coq/Properties/C06.v over the executable model coq/Model/Coll.v: the uniqueness/"
-             "cache-harmlessness invariant holds in every reachable state (induction over arbitrary op lists), "
-             "look-ups return exactly the member with that number, offered numbers are free, request_number "
-             "terminates for step != 0, NumberConflictError/TypeError leave members, numbers and links unchanged. "
-             "The model is tied to /repo on every run by executing random operation sequences on the five real "
-             "collection classes and on the extracted model and comparing every result, the member list and the "
-             "number cache; a property-level oracle re-checks the sentences on the real objects.",
-        note="Trusted: Coq kernel + vm_compute, extraction (ExtrOcamlBasic/ExtrOcamlString), the Python harness; "
-             "the model is hand-written (modelled, not verified) and covers numbered_object_collection.py and the "
-             "five number setters; objects are value-distinct; step != 0.",
-        ref="DESIGN.md §6 C06, §14",
-    ),
-    "C10": dict(
-        technique="Coq proof about the Wrap model (textwrap._wrap_chunks + wrap_string_for_mcnp) "
-                  "+ byte-exact correspondence on generated strings + two-regime whole-file oracle",
-        text="Theorems in coq/Properties/C10.v over coq/Model/Wrap.v, for all chunk lists and widths: the wrapper "
-             "terminates, every produced line fits the limit, continuation lines start with the 5-blank indent, nothing "
-             "is lost or added except indents, a line that fits is written unchanged, no written line is blank-only, and "
-             "re-splitting the wrapped lines gives exactly the tokens of the text when breaks fall at blanks "
-             "(C10_resplit); C10_resplit_comment_refuted proves that a wrapped '$' comment becomes data (known finding). "
-             "Tie: wrap_string_for_mcnp vs the extracted model byte for byte on generated strings; the chunking regex is "
-             "checked per case against split_ws. Search: generated problems laid out near the limit, edited so numbers "
-             "grow, written for 80 and 128 columns and re-read by an independent reader.",
-        note="Trusted: Coq kernel, extraction, harness. Modelled not verified: _wrap_chunks/_handle_long_word; the "
-             "chunking regular expression of textwrap is not modelled (input of the model).",
-        ref="DESIGN.md §6 C10, §14",
-    ),
-}
+CHECKS = {}
 
 ALL = ["C%02d" % i for i in range(1, 21)]
 
